@@ -421,6 +421,13 @@ func sessionC13(t *testing.T, raw json.RawMessage) *sim.Outcome {
 			o.Fail("C13.no_crash", "client_panic:"+op.Op, i, "%s: client panicked: %v", tag, cpanic)
 			break
 		}
+		// a failing raw relay ends the service of this connection by specification: wait for it (deterministically)
+		// instead of racing with the serving goroutine
+		if op.Op == "forward" && op.Fail != "" && cerr != nil {
+			if rr, _ := hex.DecodeString(op.Raw); len(rr) > 0 && opOf(rr[0]) == "forward" {
+				<-done
+			}
+		}
 		select {
 		case <-done:
 			if srvPanic != nil {
